@@ -136,7 +136,21 @@ package polynomial
 
 // lagrange dereferences interpolationDomain[j]: j outside the domain is a nil scalar and panics in tmp.Set, so
 // membership is a precondition (every caller in the module passes subset == domain).
+// sprod(S, T): the field product over k in S of T[k] (empty set: s_of_nat(1); inserting a new element multiplies by its
+// term - the two equations define the fold, commutativity makes the order of the map iteration irrelevant: A-NT)
+//@ spec fn sprod((Array Int Bool), (Array Int Int)) Int
+//@ rawaxiom[sprod] (forall ((T (Array Int Int))) (= (sprod ((as const (Array Int Bool)) false) T) (s_of_nat 1)))
+//@ rawaxiom[sprod] (forall ((S (Array Int Bool)) (T (Array Int Int)) (k Int)) (! (=> (not (select S k)) (= (sprod (store S k true) T) (s_mul (sprod S T) (select T k)))) :pattern ((sprod (store S k true) T))))
+// The closed formula of the coefficient (C02, C01):  l_j(0) = numerator / ( x_j * prod_{i != j} (x_i - x_j) ),
+// the product taken over the whole interpolation domain (lemma c02_lagrange, lemmas/lean: with numerator = prod x_i these
+// are the Lagrange basis polynomials evaluated at 0, and any t+1 points of a polynomial of degree t give back f(0)).
 //@ func lagrange
+//@   use sprod
+//@   let T = lam(k, party.ID, ite(k == j, old(scval(interpolationDomain[j])), s_add(s_neg(old(scval(interpolationDomain[j]))), old(scval(interpolationDomain[k])))))
+//@   ensures[C02,C01] scval(result) == s_mul(s_inv(sprod(domset(interpolationDomain), T)), old(scval(numerator)))
+//@   loop 1: invariant[C02,C01] scval(denominator) == sprod(visitedset(1), T)
+//@   loop 1: invariant[C02,C01] forall(k, party.ID, indom(interpolationDomain, k) ==> scval(interpolationDomain[k]) == old(scval(interpolationDomain[k]))) && scval(numerator) == old(scval(numerator))
+//@   loop 1: invariant[C02,C01] forall(k, party.ID, visited(1, k) ==> indom(interpolationDomain, k))
 //@   nopanic[C05]
 //@   requires group != nil && numerator != nil && interpolationDomain != nil
 //@   requires indom(interpolationDomain, j)
